@@ -6,6 +6,7 @@ import json, os, sys
 variant = sys.argv[1] if len(sys.argv) > 1 else ""
 HINTS = {
     "": "",
+    "indirect": " For this assignment prefer a change in a file that is NOT among the code locations listed above but that they depend on (helper packages, interop models and channels, rendering, middleware, metering, telemetry, supervisor model, application context) - a change whose effect reaches the property only through another component; or a change to the error/slow path of an operation rather than to its normal path (what happens when a write fails, a peer is slow, a process is already gone, a channel is full, a header is missing). It must still need something specific to manifest.",
     "deep": " For this assignment prefer a violation that needs a HISTORY or a SCHEDULE rather than a special input value: e.g. something that only shows after an earlier failure/reset/timeout of a particular kind, on a second or third generation of the environment, when two events race in a particular order, or when a fault (process exit, slow peer, error report) arrives at a particular point of a protocol. Prefer a site that is not the most obvious one for this property.",
 }
 props = {}
